@@ -27,6 +27,11 @@ type TapTarget struct {
 	Log      *Log
 	Inner    module.DeliveryTarget
 
+	// BodyHook, when set, may substitute the body buffer handed to the inner
+	// delivery's Body / BodyNonAtomic (environment-fault injection: a spool body
+	// that cannot be opened or whose reader fails). nil = pass through.
+	BodyHook func(msgID string, attempt int, body buffer.Buffer) buffer.Buffer
+
 	mu       sync.Mutex
 	attempts map[string]int
 	starts   int
@@ -92,6 +97,9 @@ func (d *tapDelivery) AddRcpt(ctx context.Context, rcptTo string, opts smtp.Rcpt
 
 func (d *tapDelivery) Body(ctx context.Context, header textproto.Header, body buffer.Buffer) error {
 	d.ev("body.call", "", nil, false)
+	if d.t.BodyHook != nil {
+		body = d.t.BodyHook(d.msgID, d.att, body)
+	}
 	err := d.inner.Body(ctx, header, body)
 	d.ev("body", "", err, true)
 	return err
@@ -128,6 +136,9 @@ func (c tapCollector) SetStatus(rcptTo string, err error) {
 
 func (d *tapPartialDelivery) BodyNonAtomic(ctx context.Context, c module.StatusCollector, header textproto.Header, body buffer.Buffer) {
 	d.ev("bodyna.call", "", nil, false)
+	if d.t.BodyHook != nil {
+		body = d.t.BodyHook(d.msgID, d.att, body)
+	}
 	d.pd.BodyNonAtomic(ctx, tapCollector{d: d.tapDelivery, inner: c}, header, body)
 	d.ev("bodyna", "", nil, true)
 }
